@@ -88,6 +88,9 @@ EnvPoints ==
          \cup {[EnvBase EXCEPT !.mask = ms, !.disp = d, !.wd = w] : ms \in Masks, d \in Disps, w \in {"", "/d"}}
          \cup {[EnvBase EXCEPT !.limit = -1, !.mask = ms] : ms \in {<<>>, <<15>>}}   \* no descriptor limit: start must refuse cleanly
   IN {Opt(<<U, U, U>>, NoSh, -1, FALSE, TRUE) @@ [x |-> v] : v \in vary}
+     \* a relative redirect path together with a working directory for the child, from a directory too deep to chdir back into:
+     \* the file is the one relative to the CALLER's directory, and the caller is still there afterwards
+     \cup {Opt(<<U, U, U>>, [NoSh EXCEPT !.path = "rel.out"], -1, FALSE, TRUE) @@ [x |-> [EnvBase EXCEPT !.wd = "/d", !.cwdlen = l]] : l \in {0, 5000}}
      \* start-up input (the one path on which start itself writes to a pipe) with handlers for SIGPIPE and others installed
      \cup {Opt(<<U, U, U>>, NoSh, 3, FALSE, TRUE) @@ [x |-> [EnvBase EXCEPT !.disp = d]] : d \in {<<<<13, 2>>>>, <<<<2, 2>>, <<13, 1>>>>, <<>>}}
 
@@ -183,8 +186,8 @@ Expected ==
        [] Family \in {"env", "env2"} ->
             common @@ [r |-> 1, left |-> 0, cexec |-> 1, cargv |-> <<X.prog>> \o X.argvx, cenv |-> ExpEnv,
                        pmask |-> X.mask, pdisp |-> X.disp, penv |-> X.penv, cmask |-> <<>>, cdisp |-> <<>>]
-                   @@ (IF X.cwdlen > 0 /\ X.wd # "" /\ IsRel(X.prog) THEN [cprogl |-> <<ExpProgLen, 1>>]
-                       ELSE IF X.cwdlen > 0 THEN [cprog |-> X.prog]
+                   @@ (IF X.cwdlen > 0 /\ X.wd # "" /\ IsRel(X.prog) THEN [cprogl |-> <<ExpProgLen, 1>>, pcwd |-> X.cwd]
+                       ELSE IF X.cwdlen > 0 THEN [cprog |-> X.prog, pcwd |-> X.cwd]
                        ELSE [cprog |-> ExpProg, ccwd |-> IF X.wd = "" THEN X.cwd ELSE X.wd, pcwd |-> X.cwd])
        [] v.v = "accept" -> common @@ [r |-> 1, cw |-> ChildWiring(v.eff, kk), cx |-> ChildExtra(v.eff),
                                       pp |-> ParentEnds(v.eff, kk.hasInput), cnb |-> 0, cexec |-> 1,
